@@ -15,4 +15,5 @@ def check(tier, seed):
                      "and only when the complementary element is not known to vanish; every generated evaluator reads other series only at the "
                      "requested order and block (or its transpose); at-most-once follows from the cache protocol (C19) because inputs are never "
                      "deleted (delete:not-blacklisted); definition-time reads are structurally zeroth-order.")
+    d.run_battery("series_battery.py", ['lazy', 'index', 'product'], "shapes <= (2,3), <= 2 infinite dimensions, orders <= 3, fixed list of index entries, 4x4 two-block problems; see replay/series_battery.py")
     return d.finish(level="proof", trusted_base=["contracts/series_product.py", "contracts/algorithm_evals.py", "contracts/definition_time.py"])
